@@ -632,7 +632,7 @@ func genPos(t *rapid.T, bits uint, label string) int64 {
 
 func genBytes(t *rapid.T, label string) []byte {
 	n := rapid.SampledFrom([]int{0, 0, 1, 2, 3, 5, 16, 127, 128, 300}).Draw(t, label+"_n")
-	if rapid.IntRange(0, 60).Draw(t, label+"_big") == 0 {
+	if rapid.IntRange(0, 60).Draw(t, label+"_big") == 37 {
 		n = 32767
 	}
 	b := make([]byte, n)
